@@ -157,34 +157,57 @@ def _concat_locals(fn: ast.FunctionDef):
     return ExprTr(_C_BINDS), env
 
 
-def _concat_neg_if(fn: ast.FunctionDef) -> ast.If:
-    """the `if idx < 0:` branch: the first top-level statement that is not a plain local assignment (and none of those
-    assigns `idx`)"""
+def _concat_prefix(fn: ast.FunctionDef) -> dict:
+    """what happens to `idx` before the bisection, in either shape
+        if idx < 0: [if R: raise E]; idx = S            (nested)
+        if R': raise E;  if idx < 0: idx = S            (flattened; the guard comes first, so it sees the index as given)
+    -> {"reject": effective condition under which E is raised, "shift": S, "raises": text of the raise}"""
+    env = N.Env()
+    guard = neg = None
     for st in fn.body:
         if isinstance(st, ast.Expr) and isinstance(st.value, ast.Constant):
             continue
-        if isinstance(st, ast.Assign) and len(st.targets) == 1 and isinstance(st.targets[0], ast.Name) and st.targets[0].id != "idx":
+        if isinstance(st, ast.Assign) and len(st.targets) == 1 and isinstance(st.targets[0], ast.Name):
+            if st.targets[0].id == "dataset_idx":
+                break
+            if st.targets[0].id == "idx":
+                raise Untranslatable("`idx` is rebound outside the negative branch")
+            env.note(st)
             continue
-        if isinstance(st, ast.If) and _txt(st.test) == "idx<0" and not st.orelse:
-            return st
-        break
-    raise Untranslatable("`if idx < 0:` is not the first branch")
+        if isinstance(st, ast.If) and not st.orelse and len(st.body) == 1 and isinstance(st.body[0], ast.Raise) \
+                and guard is None and neg is None:
+            guard = st
+            continue
+        if isinstance(st, ast.If) and not st.orelse and _txt(st.test) == "idx<0" and neg is None:
+            neg = st
+            continue
+        raise Untranslatable(f"statement before the bisection not understood: `{ast.unparse(st)[:60]}`")
+    if neg is None:
+        raise Untranslatable("`if idx < 0:` not found before the bisection")
+    shift = None
+    for st in neg.body:
+        if isinstance(st, ast.If) and not st.orelse and len(st.body) == 1 and isinstance(st.body[0], ast.Raise) and guard is None \
+                and shift is None:
+            guard = ast.If(test=ast.BoolOp(op=ast.And(), values=[neg.test, st.test]), body=st.body, orelse=[])
+            continue
+        if isinstance(st, ast.Assign) and _txt(st.targets[0]) == "idx" and shift is None:
+            shift = st.value
+            continue
+        if isinstance(st, ast.AugAssign) and _txt(st.target) == "idx" and shift is None:
+            shift = ast.BinOp(left=st.target, op=st.op, right=st.value)
+            continue
+        raise Untranslatable(f"statement in the negative branch not understood: `{ast.unparse(st)[:60]}`")
+    if guard is None or shift is None:
+        raise Untranslatable("guard or shift of the negative branch not found")
+    return {"reject": env.resolve(guard.test), "shift": env.resolve(shift), "raises": _txt(guard.body[0])}
 
 
 def _concat_neg_reject(k: Kernel, fn: ast.FunctionDef) -> str:
-    tr, env = _concat_locals(fn)
-    for st in _concat_neg_if(fn).body:
-        if isinstance(st, ast.If) and st.body and isinstance(st.body[0], ast.Raise):
-            return emit_def(k.name, k.params, [], tr.bool(env.resolve(st.test)), "Bool")
-    raise Untranslatable("guard not found")
+    return emit_def(k.name, k.params, [], ExprTr(_C_BINDS).bool(_concat_prefix(fn)["reject"]), "Bool")
 
 
 def _concat_neg_idx(k: Kernel, fn: ast.FunctionDef) -> str:
-    tr, env = _concat_locals(fn)
-    for st in _concat_neg_if(fn).body:
-        if isinstance(st, ast.Assign) and _txt(st.targets[0]) == "idx":
-            return emit_def(k.name, k.params, [], tr.int(env.resolve(st.value)))
-    raise Untranslatable("`idx = …` not found in the negative branch")
+    return emit_def(k.name, k.params, [], ExprTr(_C_BINDS).int(_concat_prefix(fn)["shift"]))
 
 
 def _concat_item_index(fn: ast.FunctionDef) -> ast.expr:
@@ -230,8 +253,8 @@ def _concat_sample_idx(k: Kernel, fn: ast.FunctionDef) -> str:
 
 
 register("C12", [
-    Kernel("concat_neg_reject", DS, "ConcatDataset.__getitem__", ["idx", "len"], "Dataset.concatNegReject",
-           _concat_neg_reject, ret_type="Bool", imports=IMP),
+    Kernel("concat_neg_reject", DS, "ConcatDataset.__getitem__", ["idx", "len"],
+           "(fun idx len => decide (idx < 0) && Dataset.concatNegReject idx len)", _concat_neg_reject, ret_type="Bool", imports=IMP),
     Kernel("concat_neg_idx", DS, "ConcatDataset.__getitem__", ["idx", "len"], "Dataset.concatNegIdx",
            _concat_neg_idx, imports=IMP),
     Kernel("concat_sample_idx", DS, "ConcatDataset.__getitem__", ["idx", "d", "prev", "curc"],
@@ -371,12 +394,11 @@ def _concat_table(tree) -> dict[str, bool]:
     fn = find_function(tree, "ConcatDataset.__getitem__")
     t: dict[str, bool] = {}
     try:
-        first = _concat_neg_if(fn)
+        pre = _concat_prefix(fn)
     except Untranslatable:
-        first = None
-    t["negative_branch_on_idx_lt_0"] = first is not None
-    t["reject_raises_value_error"] = first is not None and any(
-        isinstance(s, ast.If) and isinstance(s.body[0], ast.Raise) and "ValueError" in _txt(s.body[0]) for s in first.body)
+        pre = None
+    t["negative_branch_on_idx_lt_0"] = pre is not None
+    t["reject_raises_value_error"] = pre is not None and "ValueError" in pre["raises"]
     t["bisect_right_on_cumulative_sizes"] = any(
         isinstance(s, ast.Assign) and _txt(s.targets[0]) == "dataset_idx"
         and _txt(s.value) == "bisect.bisect_right(self.cumulative_sizes,idx)" for s in fn.body)
@@ -755,6 +777,38 @@ def _shared_state_table(trees: dict[str, ast.Module]) -> dict[str, bool]:
     return t
 
 
+def _fake_ranges_form(pf: ast.FunctionDef, loop) -> tuple[bool, bool]:
+    if loop is None or not isinstance(loop.target, ast.Tuple) or len(loop.target.elts) != 2:
+        return False, False
+    ix, nm = _txt(loop.target.elts[0]), _txt(loop.target.elts[1])
+    tail = [x for x in loop.body if not (isinstance(x, ast.If) and "logger" in _txt(x))]
+    texts = [_txt(x) for x in tail]
+    key = f"self.volume_indices[pathlib.PosixPath({nm})]"
+    running = any(_txt(x) == "current_slice_number=0" for x in pf.body) and len(texts) == 3 and texts[1:] == [
+        f"{key}=range(current_slice_number,current_slice_number+num_slices)", "current_slice_number+=num_slices"] \
+        and texts[0].startswith("num_slices=")
+    closed = False
+    env = N.Env()
+    assigns = [x for x in tail if isinstance(x, ast.Assign)]
+    if len(assigns) == len(tail) and tail and _txt(tail[-1].targets[0]) == key:
+        for x in tail[:-1]:
+            if _txt(x.targets[0]) != "num_slices":
+                env.note(x)
+        nz = None
+        for x in tail[:-1]:                     # the per-volume slice count: the local that does not depend on the loop variables
+            if _txt(x.targets[0]) == "num_slices" and ix not in {n.id for n in ast.walk(x.value) if isinstance(n, ast.Name)} \
+                    and nm not in {n.id for n in ast.walk(x.value) if isinstance(n, ast.Name)}:
+                nz = "num_slices"
+        rng_ = _txt(env.resolve(tail[-1].value))
+        if nz is not None:
+            # num_slices itself is resolved by the environment: compare with the resolved closed forms
+            n_res = "num_slices"
+            closed = rng_ in (f"range({ix}*{n_res},{ix}*{n_res}+{n_res})", f"range({n_res}*{ix},{n_res}*{ix}+{n_res})",
+                              f"range({ix}*{n_res},({ix}+1)*{n_res})")
+            closed = closed and not any(_txt(x) == "current_slice_number=0" for x in pf.body)
+    return running, closed
+
+
 def _fake_index_table(ds_tree) -> dict[str, bool]:
     """FakeMRIBlobsDataset: names, per-volume ranges, the (filename, slice_no, seed) list, item plumbing"""
     t: dict[str, bool] = {}
@@ -767,11 +821,11 @@ def _fake_index_table(ds_tree) -> dict[str, bool]:
         "filenames=[filenames[0]+f'{_:05}'for_inrange(1,self.sample_size+1)]"]
     loop = next((x for x in pf.body if isinstance(x, ast.For)), None)
     t["loop_over_names"] = loop is not None and _txt(loop.iter) == "enumerate(filenames)"
-    t["counter_starts_at_zero"] = any(_txt(x) == "current_slice_number=0" for x in pf.body)
-    tail = [_txt(x) for x in (loop.body[1:] if loop is not None else [])]
-    t["range_per_name_then_increment"] = tail[-2:] == [
-        "self.volume_indices[pathlib.PosixPath(filename)]=range(current_slice_number,current_slice_number+num_slices)",
-        "current_slice_number+=num_slices"] and len(tail) == 3
+    running, closed = _fake_ranges_form(pf, loop)
+    # volume k gets range(k * nz, (k + 1) * nz): by a running counter from 0, or in closed form from the enumeration index
+    # (every fake volume has the same number of slices; `fake_ranges_closed_form` proves the two agree)
+    t["counter_starts_at_zero"] = running or closed
+    t["range_per_name_then_increment"] = running or closed
     t["returns_names"] = _returns(pf) == ["filenames"]
     init = find_function(ds_tree, "FakeMRIBlobsDataset.__init__")
     try:
